@@ -15,8 +15,8 @@ PROP = "C04"
 LEVEL = "exploration"
 RULE = (
     "complete enumeration of (output depth, in-memory dtype, nsamps, nchans, value class) for prep_outfile/cwrite, of "
-    "(nchans, nsamps) for FilterbankBlock.to_file, and of all series lengths 1..Lmax x value classes for .tim, .dat/.inf, "
-    ".spec, .fft/.inf; each call either raises (refusal) or the file has exactly hdrlen + n*C*nbits/8 bytes and reads back "
+    "(nchans, nsamps) for FilterbankBlock.to_file, of every composition of ns samples into consecutive cwrite calls on one writer, and of all series lengths 1..Lmax x value classes for .tim, .dat/.inf, "
+    ".spec, .fft/.inf (series headers carrying the depth of a parent filterbank: 32, 8, 16, 2); each call either raises (refusal) or the file has exactly hdrlen + n*C*nbits/8 bytes and reads back "
     "bit-identical with tsamp/tstart/dm preserved. Non-trivial = in-memory dtype differs from the on-disk type, or a "
     "sub-byte depth, or a series of length >= 2"
 )
@@ -25,7 +25,7 @@ ASSUMPTIONS = [
     "textual .inf metadata compared to 1e-12 relative (tsamp, dm) and 1e-10 d (tstart)",
     "header.nsamples of a spectrum is not asserted (the statement does not define it)",
 ]
-REQUIRED_OUTCOMES = ["cwrite/roundtrip", "cwrite/refused", "block/roundtrip", "tim/roundtrip", "dat/roundtrip", "spec/roundtrip", "fft/roundtrip"]
+REQUIRED_OUTCOMES = ["cwrite/roundtrip", "cwrite/sequence_roundtrip", "cwrite/refused", "block/roundtrip", "tim/roundtrip", "dat/roundtrip", "spec/roundtrip", "fft/roundtrip"]
 
 DTYPES = ["uint8", "uint16", "int64", "float32", "float64"]
 
@@ -114,7 +114,7 @@ def _cwrite(wd, shard, ctx, res, only):
                 for vc in ("min", "max", "ramp", "frac", "huge"):
                     cases.append([dtype, ns, C, vc])
     if only is not None:
-        cases = [only]
+        cases = [] if only[0] == "seq" else [only]
     hdrs = {}
     for dtype, ns, C, vc in cases:
         vals = _values(nb, dtype, ns * C, vc, ctx.seed)
@@ -144,6 +144,38 @@ def _cwrite(wd, shard, ctx, res, only):
             res.outcome("cwrite/roundtrip")
             if np.dtype(dtype) != natural or nb < 8:
                 res.nontrivial += 1
+    # histories on ONE writer: every composition of ns samples into consecutive cwrite calls (growing, shrinking, single-sample chunks)
+    natural = np.dtype(fx.NP_DTYPE[nb])
+    nmax = shard["max_nsamps"] + 2
+    seqs = [[dtype, list(comp), C] for dtype in dict.fromkeys([natural.name if nb >= 8 else "uint8", "float32"]) for C in chans
+            for ns in range(2, nmax + 1) for comp in fx.compositions(ns, ns) if len(comp) >= 2]
+    if only is not None:
+        seqs = [only[1:]] if only[0] == "seq" else []
+    for dtype, comp, C in seqs:
+        ns = sum(comp)
+        vals = _values(nb, dtype, ns * C, "ramp", ctx.seed)
+        res.evaluations += 1
+        case = {"shard": shard, "inner": ["seq", dtype, comp, C]}
+        if C not in hdrs:
+            hdrs[C] = _mk_header(wd, C, 8, dm=12.5)
+        src = hdrs[C]
+        out = str(wd / "outseq.fil")
+        at = 0
+        try:
+            w = src.prep_outfile(out, nbits=nb)
+            for part in comp:
+                w.cwrite(vals[at * C : (at + part) * C])
+                at += part
+            w.close()
+        except Exception as e:  # noqa: BLE001
+            if at == 0:
+                res.outcome("cwrite/refused")  # this (dtype, depth) is refused from the first call on: allowed
+                continue
+            res.violation({"site": "FileWriter.cwrite", "symptom": f"raised {type(e).__name__} after earlier writes of the same dtype succeeded"}, case, repr(e))
+            continue
+        if _verify_fil(out, vals.reshape(ns, C), nb, src, res, case, "FileWriter.cwrite (sequence of calls)", dm=12.5):
+            res.outcome("cwrite/sequence_roundtrip")
+            res.nontrivial += 1
     res.sample({"path": "cwrite", "nbits": nb, "case": ["float32", 2, chans[0], "ramp"]}, cap=1)
 
 
@@ -237,7 +269,8 @@ def _series(wd, shard, ctx, res, only):
         tsamp, tstart, dm = metas[(n + len(vc)) % len(metas)]
         case = {"shard": shard, "inner": [n, vc]}
         x = _series_values(n, vc)
-        hdr = Header(filename=str(wd / "series.tim"), data_type="time series", nchans=1, foff=-0.5, fch1=1400.0, nbits=32,
+        # the header of a series usually derives from its parent filterbank and still names that file's depth
+        hdr = Header(filename=str(wd / "series.tim"), data_type="time series", nchans=1, foff=-0.5, fch1=1400.0, nbits=(32, 8, 16, 32, 2)[n % 5],
                      tsamp=tsamp, tstart=tstart, nsamples=n, dm=dm, source="J0000-0000")
 
         def meta_ok(h, site, exact: bool) -> bool:
